@@ -244,10 +244,20 @@ package tq
 //@   modifies fresh
 //@   monitor batchfailed[0] := result1 != nil
 //@   ensures result1 == nil ==> result0 != nil
+// C18: the adapter that drives a batch is the one the batch response named
+// (or the default for that name): a running adapter is kept only if it has
+// exactly that name - an empty name means "basic", not "whatever is running".
 //@ func (*TransferQueue).useAdapter
 //@   assumed
-//@   props C06 C15
+//@   props C06 C15 C18
 //@   modifies field q.adapter, field q.adapterInProgress
+//@   at call (tq.Manifest).NewAdapterOrDefault:1 assert arg1__ == name && arg2__ == q.direction
+//@   ensures @checked old(q.adapter) == nil || adaptername(old(q.adapter)) != name ==> nadapters(0) == old(nadapters(0)) + 1
+//@ iface (Adapter).End
+//@   modifies heap
+//@ iface (Manifest).NewAdapterOrDefault
+//@   modifies fresh, ghost nadapters[0]
+//@   ensures nadapters(0) == old(nadapters(0)) + 1
 //@ iface (Manifest).Upgrade
 //@   noeffect
 
@@ -580,7 +590,9 @@ package tq
 //@ iface (Adapter).Begin
 //@   modifies heap
 //@ iface (Adapter).Name
+//@   params recv
 //@   noeffect
+//@   ensures result == adaptername(recv)
 //@ func (*TransferQueue).toAdapterCfg
 //@   assumed
 //@   props C06
